@@ -178,6 +178,30 @@ def run(tier, seed, replay=None):
             rep.violation(name, {"case": name, "options": opts, "problems": problems[:6], "text_glyphs": glyphs,
                                  "meaning": "shaping the one-rule program with libgraphite2 gives other user attribute values than evaluating the GDL expressions"})
         shutil.rmtree(r["dir"], ignore_errors=True)
+    # (T2a') the bitwise operators & | ~ (not produced by the expression generator): a fixed program evaluated by the engine
+    import ttf as _ttf
+    bprog = gen.Prog()
+    bprog.nglyphs = 20
+    bprog.font, _g, bprog.cmap = _ttf.simple_font(20)
+    bprog.raw_gdl = ('#include "stddef.gdh"\ntable(glyph) cA = glyphid(3..6); cB = glyphid(7..10); endtable;\n'
+                     'table(sub) pass(1) cA > cB {user1 = 6; user2 = 12}; endpass;\n'
+                     'pass(2) cB {user3 = (user1 & user2); user4 = (user1 | user2); user5 = (~user1) & 255} ; endpass; endtable;\n')
+    rb = harness.compile_cases(build, work, [("bitwise", bprog)])[0]
+    if rb["rc"] == 0 and os.path.exists(os.path.join(rb["dir"], "out.ttf")):
+        fb = gr2.Face(os.path.join(rb["dir"], "out.ttf"))
+        sb = fb.shape([0x62], user_attrs=5) if fb.ok() else None
+        fb.close()
+        stats["bitwise_programs"] += 1
+        got = sb[0]["user"][2:5] if sb else None
+        want = [6 & 12, 6 | 12, (~6) & 255]
+        if got != want:
+            d = harness.save_case(rep, rb, "bitwise")
+            sig = "C01:bitwise-and-or-exchanged-under-libgraphite2" if got == [6 | 12, 6 & 12, 6 | 255] or got == [6 | 12, 6 & 12, ((~6) | 255) & 0xFFFF] or (got and got[:2] == [6 | 12, 6 & 12]) else None
+            rep.violation("bitwise", {"gdl": bprog.raw_gdl, "text": "b", "engine_user3_user4_user5": got, "the_rules_say": want,
+                                      "meaning": "user1 = 6, user2 = 12: user1 & user2 is 4 and user1 | user2 is 14; libgraphite2 computes the other one for each"}, signature=sig)
+    else:
+        rep.violation("bitwise-rejected", {"gdl": bprog.raw_gdl, "errors": [l for l in rb["err"].split("\n") if "error" in l][:3]})
+    shutil.rmtree(rb["dir"], ignore_errors=True)
     # (T2b) engine level: the Lean reference interpreter of the IR's rules (Grc.Eng.shape) against libgraphite2 on the compiled font
     import itertools
     import json as _json
